@@ -259,6 +259,79 @@ def gen_bbt(rng, n, r, separated=False):
         b = [[rint(rng, -3, 3) for _ in range(r)] for _ in range(n)]
         a = mmul(b, tr(b)) if r else [[Fr(0)] * n for _ in range(n)]
         if not separated or ps_separated(a): return a
+# ---------------------------------------------------------------- Cholesky rank-one update: exactly representable runs
+def pow2(d): d = Fr(d); return d > 0 and (d.numerator == 1 or d.denominator == 1) and (d.numerator * d.denominator) & (d.numerator * d.denominator - 1) == 0
+def gen_update_exact(rng, n, throw=False):
+    """(alpha, beta, A = L L^T, v) such that every square root of cholesky_decomposition::update is taken of the square of a power
+    of two and every intermediate value is a small dyadic rational: v is built column by column along an exact reference run of the
+    update as coded (GENERATOR only).  throw=True: the last component makes x <= 0 (the documented exception)"""
+    for attempt in range(50):
+        L = [[(rint(rng, -2, 2) if j < i else (rng.choice([Fr(1), Fr(2), Fr(4)]) if i == j else Fr(0))) for j in range(n)] for i in range(n)]
+        alpha = rng.choice([Fr(1), Fr(4), Fr(1, 4), Fr(16)]); a = fr_sqrt(alpha)
+        beta = rng.choice([Fr(3), Fr(3), Fr(-3, 4), Fr(12), Fr(3, 4), Fr(1), Fr(15), Fr(-1)])
+        v = [None] * n; bp = Fr(1); ok = True
+        # temp(j) at its turn = v(j) - corr(j), corr = the corrections of the earlier columns (they read column j of the ORIGINAL factor)
+        corr = [Fr(0)] * n
+        for j in range(n):
+            ljj = a * L[j][j]; dj = ljj * ljj
+            cands = []
+            for vj in [Fr(k, q) for q in (1, 2) for k in range(-16, 17)]:
+                wj = vj - corr[j]; x = dj + beta * wj * wj / bp
+                if throw and j == n - 1:
+                    if x <= 0: cands.append((vj, wj, x))
+                elif x > 0 and fr_sqrt(x) is not None and pow2(fr_sqrt(x)): cands.append((vj, wj, x))
+            nz = [c for c in cands if c[1] != 0]
+            if nz and rng.random() < 0.8: cands = nz
+            if not cands: ok = False; break
+            vj, wj, x = rng.choice(cands); v[j] = vj
+            for i in range(j + 1, n): corr[i] += (wj / ljj) * (L[i][j] * a)
+            bp = bp + beta * wj * wj / dj
+        if not ok: continue
+        # exact reference run with the chosen v to validate representability (and that the last step throws iff asked)
+        ref = py_chol_update(alpha, beta, L, v)
+        if throw: 
+            if ref is None: return alpha, beta, mmul(L, tr(L)), v
+            continue
+        if ref is not None and all(small_dyadic(x) for r in ref for x in r): return alpha, beta, mmul(L, tr(L)), v
+    raise RuntimeError("gen_update_exact: no representable sample")
+def py_chol_update(alpha, beta, L, v):
+    """exact reference run of update as coded; None if it throws or a square root is not exact"""
+    n = len(v); L = [list(r) for r in L]
+    a = fr_sqrt(alpha)
+    if a is None: return None
+    if beta == 0: return [[x * a for x in r] for r in L]
+    temp = list(v); bp = Fr(1)
+    for j in range(n):
+        ljj = a * L[j][j]; dj = ljj * ljj; wj = temp[j]; s2 = beta * wj * wj; gamma = dj * bp + s2
+        x = dj + s2 / bp
+        if x <= 0: return None
+        nl = fr_sqrt(x)
+        if nl is None or not pow2(nl): return None
+        L[j][j] = nl; bp += s2 / dj
+        for i in range(j + 1, n):
+            L[i][j] *= a; temp[i] -= (wj / ljj) * L[i][j]
+            if gamma != 0: L[i][j] = L[i][j] * (nl / ljj) + (nl * beta * wj / gamma) * temp[i]
+    return L
+def gen_U_cases(rng, big):
+    cases = []
+    for ao in "rc":
+        cases.append(("exact", "U %s 2 1 3 | 1 0 0 4 | 1 4" % ao)); cases.append(("exact", "U %s 2 1 -1 | 1 0 0 4 | 2 0" % ao))
+        cases.append(("exact", "U %s 2 4 0 | 1 0 0 4 | 2 0" % ao)); cases.append(("exact", "U %s 1 4 12 | 1 | 1" % ao))
+        for n in [rng.randint(1, 10) for _ in range(5 if not big else 14)] + [rng.choice([33, 36])]:
+            al, be, a, v = gen_update_exact(rng, n)
+            cases.append(("exact", "U %s %d %s %s | %s | %s" % (ao, n, tok(al), tok(be), fl(a), fl([v]))))
+        for n in [rng.randint(1, 8) for _ in range(2 if not big else 6)]:
+            al, be, a, v = gen_update_exact(rng, n, throw=True)
+            cases.append(("exact", "U %s %d %s %s | %s | %s" % (ao, n, tok(al), tok(be), fl(a), fl([v]))))
+        for n in [rng.randint(1, 10) for _ in range(2 if not big else 6)]:      # beta == 0: the whole factor is scaled by sqrt(alpha)
+            cases.append(("exact", "U %s %d %s 0 | %s | %s" % (ao, n, tok(rng.choice([Fr(4), Fr(1, 4), Fr(16), Fr(1)])), fl(gen_spd_exact(rng, n)), fl([[rint(rng, -3, 3) for _ in range(n)]]))))
+        for n in [rng.randint(1, 12) for _ in range(4 if not big else 12)] + [rng.choice([33, 40])]:
+            a2 = gen_float(rng, n, "spd", 100.0); v = [rng.uniform(-1, 1) for _ in range(n)]
+            if rng.random() < 0.3:
+                z = rng.randint(1, n); v[:z] = [0.0] * z
+            alpha = rng.choice([1.0, 0.5, 2.0, rng.uniform(0.1, 3)]); beta = rng.choice([1.0, rng.uniform(0.1, 2), 0.0, -1e-3 * min(a2[i][i] for i in range(n)), -100.0])
+            cases.append(("fmodel", "U %s %d %s %s | %s | %s" % (ao, n, tok(alpha), tok(beta), fl(a2), fl([v]))))
+    return cases
 def gen_P_cases(rng, big):
     """streams aimed at the case splits of the pstrf proofs: rank 0, rank n, pivot ties, no swap needed / swap needed, zero trailing
     block, sizes crossing the panel width 20 (and 40)"""
@@ -505,6 +578,7 @@ def gen_cases(rng, tier):
                 cases.append(("lsq" if za is d else "float", "Z %s %s %d %d | %s | %s" % (ztag, ao, nn, m, fl(za), fl(b))))
     cases += gen_P_cases(rng, big)
     cases += gen_semi_cases(rng, big)
+    cases += gen_U_cases(rng, big)
     return cases
 def symm(a): return [[(a[i][j] + a[j][i]) / 2 for j in range(len(a))] for i in range(len(a))]
 
@@ -605,7 +679,7 @@ def monitor(kind, line, o):
             alpha, beta = num(h[3]), num(h[4]); v = [num(t) for t in g[2]]
             f = mat(n, n, og[0]); l = [[f[i][j] if j <= i else Fr(0) for j in range(n)] for i in range(n)]
             want = [[alpha * a[i][j] + beta * v[i] * v[j] for j in range(n)] for i in range(n)]
-            return [x for x in [near(mmul(l, tr(l)), want, tol * 1000, "rank-one update: L L^T vs alpha A + beta v v^T")] if x]
+            return [x for x in [near(mmul(l, tr(l)), want, 0 if exact else tol * 1000, "rank-one update: L L^T vs alpha A + beta v v^T")] if x]
         if cmd == "G":
             f = mat(n, n, og[0]); p = og[1]
             l = [[f[i][j] if j < i else Fr(int(i == j)) for j in range(n)] for i in range(n)]
